@@ -169,9 +169,13 @@ def candidates (st : St) (cur tgt : Snap) : List Ev :=
   -- function table: a new entry, or an entry whose functor changed; a body that appeared
   let fnNew := (tgt.fns.drop cur.fns.length).take 1 |>.map fun f => Ev.fnBegin f.name f.arity f.fid
   let fnChg := (List.zip cur.fns tgt.fns).filterMap fun (a, b) => if a.fid != b.fid then some (Ev.fnBegin b.name b.arity b.fid) else none
+  -- iterators: a symbol that is not protected yet first (FORALL::parse refuses a protected one unless its own header has just
+  -- created it): in a forall nested over the same table "iterator v over t" and "protected v' over the iterator" look alike
+  let isSafe := fun (v : Nat) => match cur.syms[v]? with | some y => y.safety | none => false
+  let idxV := idx.filter (fun v => !isSafe v) ++ idx.filter isSafe
   let enters := if tgt.exec > cur.exec then
-      [Ev.enterBlk] ++ idx.map Ev.enterFor ++ idx.map (fun v => Ev.enterForall v none)
-        ++ idx.flatMap (fun v => idx.map fun t => Ev.enterForall v (some t))
+      [Ev.enterBlk] ++ idx.map Ev.enterFor ++ idxV.map (fun v => Ev.enterForall v none)
+        ++ idxV.flatMap (fun v => idx.map fun t => Ev.enterForall v (some t))
     else []
   let leaves := if tgt.exec < cur.exec || st.child.isSome then [Ev.leave] else []
   news ++ chg ++ fnNew ++ fnChg ++ leaves ++ enters
@@ -243,7 +247,83 @@ def hiddenReg (st : St) (cond0 : Nat) (final : Snap) : Option (Ev × Ctx) :=
       if st'.ctx != st.ctx && obs c' cond0 == final then some (e, c') else none
     | .error _ => none
 
-def handlePctx (verdict : String) (trace : String) (finalStr : String) : String :=
+/-! ### name-level reading of explained events (pctx-heads, hist) -/
+
+def stepOr (st : St) (e : Ev) : St :=
+  match step djb st e with
+  | .ok s => s
+  | .error _ => st
+
+/-- name-level reading of an explained event list: ids → names, header registration + clause entry → one statement head.
+A registration with the type the symbol already has is not observable: a lone clause entry is the whole header. -/
+def decompF : Nat → St → List Ev → List NEv
+  | 0, _, _ => []
+  | _, _, [] => []
+  | fuel + 1, st, e :: es =>
+    match st.child with
+    | some _ =>
+      (match e with
+        | .reg n r => NEv.reg n r
+        | .enterFor _ => .enterBlk
+        | .enterForall _ _ => .enterBlk
+        | .enterBlk => .enterBlk
+        | .leave => .leave
+        | .fnBegin n a f => .fnBegin n a f
+        | .fail => .fail) :: decompF fuel (stepOr st e) es
+    | none =>
+      match e with
+      | .reg n r =>
+        let st1 := stepOr st e
+        match es with
+        | .enterFor i :: es' =>
+          if r == .plain intTy && findName n st1.ctx.names == some i then
+            .forLoop n :: decompF fuel (stepOr st1 (.enterFor i)) es'
+          else .reg n r :: decompF fuel st1 es
+        | .enterForall i t :: es' =>
+          let tn : Option (Option String) := match t with
+            | none => some none
+            | some j => (st1.ctx.names[j]?).map some
+          match findName n st1.ctx.names == some i, tn with
+          | true, some tn => .forallLoop n r tn :: decompF fuel (stepOr st1 (.enterForall i t)) es'
+          | _, _ => .reg n r :: decompF fuel st1 es
+        | _ => .reg n r :: decompF fuel st1 es
+      | .enterFor i =>
+        (match st.ctx.names[i]? with
+          | some n => NEv.forLoop n
+          | none => .fail) :: decompF fuel (stepOr st e) es
+      | .enterForall v t =>
+        let tn : Option (Option String) := match t with
+          | none => some none
+          | some j => (st.ctx.names[j]?).map some
+        (match st.ctx.names[v]?, st.ctx.tds[v]?, tn with
+          | some n, some td, some tn => NEv.forallLoop n (regTyOf td) tn
+          | _, _, _ => .fail) :: decompF fuel (stepOr st e) es
+      | .enterBlk => .enterBlk :: decompF fuel (stepOr st e) es
+      | .leave => .leave :: decompF fuel (stepOr st e) es
+      | .fnBegin n a f => .fnBegin n a f :: decompF fuel (stepOr st e) es
+      | .fail => .fail :: decompF fuel st es
+
+def decomp (st : St) (evs : List Ev) : List NEv := decompF (evs.length + 1) st evs
+
+/-- the FOR / FORALL heads of the text (outside function bodies) as the check reads them off the tokens, in order:
+`F:<hex control variable>` / `A:<hex iterator>:<hex target variable | ->`, comma separated -/
+def parseHeads (s : String) : List String :=
+  if s == "-" then [] else s.splitOn ","
+
+/-- `a` is a subsequence of `b` (a clause entry on an already type-safe FOR variable looks like a plain block in a snapshot:
+such a head of the text may be missing from the heads read off the trace, but no head may be there that the text lacks) -/
+def isSubseq : List String → List String → Bool
+  | [], _ => true
+  | _ :: _, [] => false
+  | a :: as, b :: bs => if a == b then isSubseq as bs else isSubseq (a :: as) bs
+
+def loopHeads (nevs : List NEv) : List String :=
+  nevs.filterMap fun e => match e with
+    | .forLoop n => some ("F:" ++ n)
+    | .forallLoop v _ t => some ("A:" ++ v ++ ":" ++ t.getD "-")
+    | _ => none
+
+def handlePctx (verdict : String) (trace : String) (finalStr : String) (heads : String := "*") : String :=
   match (splitNE trace '^').mapM parseSnap with
   | none => "bad-snap"
   | some [] => "bad-snap"
@@ -274,6 +354,10 @@ def handlePctx (verdict : String) (trace : String) (finalStr : String) : String 
       let viaParse := match parseText djb c0 (evs ++ (if verdict == "rej" then [Ev.fail] else [])) with
         | .reject c2 => verdict == "rej" && c2 == c'
         | .accept c2 => verdict != "rej" && c2 == c'
+      -- the clause entries found in the trace must be the FOR / FORALL heads of the text, in order (`*` = not given)
+      let lh := loopHeads (decomp (St.init c0) evs)
+      let note := if note != "" || heads == "*" || isSubseq lh (parseHeads heads) then note
+        else " note=loop-heads-of-the-trace-are-not-those-of-the-text:" ++ ",".intercalate lh
       "model=" ++ showSnap (obs c' cond0) ++ " spec=" ++ showSnap specSnap
         ++ " kf=" ++ (if verdict == "rej" then kfOf c0 c' evs else "-")
         ++ " ev=" ++ (if evs.isEmpty then "-" else ",".intercalate (evs.map showEv)) ++ (if hidden then "(unobserved)" else "")
@@ -304,11 +388,121 @@ def handleEvents (snap0 : String) (evs : String) : String :=
     | .accept c' => "model=acc " ++ showSnap (obs c' s0.cond) ++ " kf=-"
   | _, _ => "bad-op"
 
+/-! ### histories: `hist <verdict> <trace> <final> <forall heads> <verdict> <trace> <final> <forall heads> …`
+
+Several texts submitted one after the other to ONE context (each `ptrace`d). The model context is CARRIED from text to text
+(left-over names, function table, `_backed`): the first snapshot of every text must be the carried model context; every
+trace is explained from it; the explained events are read back as statement heads by NAME (`decomp`) and the statement-level
+machine `parseTextN` (raw clause entries, FORALL header test, `findSymbol` resolution) must give the same outcome. Then, for
+every rejected text k, the model runs the history WITHOUT it (`runHistory` on the name-level texts) and says whether the
+hypotheses of `later_parse_independent_of_rejected` hold for it (`hyp<k>`): the check compares that prediction with a twin. -/
+
+/-- one text of a history explained from the carried context `c`: events, final model context, note -/
+def explainText (c : Ctx) (cond0 : Nat) (rest : List Snap) (rej : Bool) (finalStr : String) : List Ev × Option Ctx × String :=
+  let (evs0, st, stuck) := walk cond0 (St.init c) rest 1 []
+  let final0 : Option Ctx :=
+    if rej then some (parsingEnd djb (unwind st))
+    else if st.stack.isEmpty && st.child.isNone then some (parsingEnd djb st.ctx) else none
+  match final0 with
+  | none => (evs0, none, "open-clause-at-accept")
+  | some c0' =>
+    let (evs, c') : List Ev × Ctx :=
+      match rej && stuck.isNone, parseSnap finalStr with
+      | true, some fin =>
+        if obs c0' cond0 == fin then (evs0, c0') else
+        match hiddenReg st cond0 fin with
+        | some (e, c2) => (evs0 ++ [e], c2)
+        | none => (evs0, c0')
+      | _, _ => (evs0, c0')
+    (evs, some c', match stuck with | some k => "unexplained-snapshot-" ++ toString k | none => "-")
+
+structure HText where
+  rej : Bool
+  nevs : List NEv
+  before : Ctx
+  after : Ctx
+  kf : Bool
+
+def dropNth {α} : List α → Nat → List α
+  | [], _ => []
+  | _ :: xs, 0 => xs
+  | x :: xs, n + 1 => x :: dropNth xs n
+
+def histLoop (cond0 : Nat) : Option Ctx → List (String × String × String × String) → Nat → List HText → List String → List HText × List String
+  | _, [], _, acc, out => (acc, out)
+  | carried, (verdict, trace, fin, heads) :: rest, k, acc, out =>
+    let tag := toString k
+    match (splitNE trace '^').mapM parseSnap with
+    | none | some [] => (acc, out ++ ["note" ++ tag ++ "=bad-snap"])
+    | some (s0 :: snaps) =>
+      let c : Ctx := match carried with | some c => c | none => ctxOfSnap s0
+      let carryOk := obs (parsingBegin c) cond0 == s0
+      let rej := verdict == "rej"
+      let (evs, c'?, note0) := explainText c cond0 snaps rej fin
+      match c'? with
+      | none => (acc, out ++ ["note" ++ tag ++ "=" ++ note0])
+      | some c' =>
+        let nevs := decomp (St.init c) evs ++ (if rej then [NEv.fail] else [])
+        -- the clause entries found in the trace must be the FOR / FORALL heads the text has, in order (kind, variable AND
+        -- target: a snapshot alone cannot tell "forall over the already locked table t" from "forall over a temporary" or
+        -- from a FOR clause on the same variable)
+        let fh := loopHeads nevs
+        let note := if note0 != "-" then note0 else if isSubseq fh (parseHeads heads) then "-"
+          else "loop-heads-of-the-trace-are-not-those-of-the-text:" ++ ",".intercalate fh
+        let o := parseTextN djb c nevs
+        let nlOk := o.ok == !rej && o.ctx == c'
+        let kf := rej && redefinitionCompleted djb c (St.init c) evs && !decide (FnsPreserved c c')
+        let line := ["v" ++ tag ++ "=" ++ (if rej then "rej" else "acc"), "m" ++ tag ++ "=" ++ showSnap (obs c' cond0),
+          "carry" ++ tag ++ "=" ++ (if carryOk then "ok" else "DIFF:" ++ showSnap (obs (parsingBegin c) cond0)),
+          "nl" ++ tag ++ "=" ++ (if nlOk then "ok" else "DIFF:" ++ (if o.ok then "acc" else "rej") ++ ":" ++ showSnap (obs o.ctx cond0)),
+          "kf" ++ tag ++ "=" ++ (if kf then "C11.complete_redefinition_survives_reject" else "-"),
+          "note" ++ tag ++ "=" ++ note, "ev" ++ tag ++ "=" ++ (if evs.isEmpty then "-" else ",".intercalate (evs.map showEv))]
+        histLoop cond0 (some c') rest (k + 1) (acc ++ [⟨rej, nevs, c, c', kf⟩]) (out ++ line)
+
+def triples : List String → Option (List (String × String × String × String))
+  | [] => some []
+  | a :: b :: c :: d :: rest => (triples rest).map fun r => (a, b, c, d) :: r
+  | _ => none
+
+def handleHist (items : List String) : String :=
+  match triples items with
+  | none => "bad-op"
+  | some [] => "bad-op"
+  | some ((v, tr, fin, hd) :: rest) =>
+    let cond0 : Nat := match (splitNE tr '^').head? >>= parseSnap with | some s => s.cond | none => 0
+    let (texts, out) := histLoop cond0 none ((v, tr, fin, hd) :: rest) 1 [] []
+    match texts.head? with
+    | none => " ".intercalate out
+    | some t0 =>
+      let c0 := t0.before
+      let idx := List.range texts.length
+      -- the history without its k-th text, for every rejected k
+      let wo := idx.flatMap fun k =>
+        match texts[k]? with
+        | some t =>
+          if !t.rej then [] else
+          let others := dropNth texts k
+          let r := runHistory djb c0 (others.map (·.nevs))
+          let withV := others.map fun u => !u.rej
+          let x := leftOver t.before t.after
+          let later := texts.drop (k + 1)
+          let hyp := !redefinitionCompleted djb t.before (St.init t.before) (compile djb (St.init t.before) t.nevs)
+            && later.all fun u => u.nevs.all (NEv.avoids x)
+          let tag := toString (k + 1)
+          ["wo" ++ tag ++ "=" ++ String.ofList (r.1.map fun b => if b then 'a' else 'r'),
+           "wf" ++ tag ++ "=" ++ showSnap (obs r.2 cond0),
+           "hyp" ++ tag ++ "=" ++ (if hyp then "1" else "0"),
+           "th" ++ tag ++ "=" ++ (if !hyp then "na" else if r.1 == withV then "ok" else "FAIL")]
+        | none => []
+      " ".intercalate (out ++ wo)
+
 def handle (words : List String) : Option String :=
   match words with
   | ["pctx", verdict, trace] => some (handlePctx verdict trace "-")
   | ["pctx", verdict, trace, final] => some (handlePctx verdict trace final)
+  | ["pctx", verdict, trace, final, heads] => some (handlePctx verdict trace final heads)
   | ["pctx-events", snap0, evs] => some (handleEvents snap0 evs)
+  | "hist" :: items => some (handleHist items)
   | _ => none
 
 end BlocV.DrvC11
